@@ -170,15 +170,13 @@ def build_coq(prop=None):
                            cwd=COQ, stdout=subprocess.PIPE, stderr=subprocess.STDOUT, text=True)
         ok = p.returncode == 0
         out = p.stdout
-        try:
-            if gname:
-                build_ocaml(gname)
-            elif ok:
-                for n in groups():
-                    build_ocaml(n)
-        except RuntimeError as e:
-            ok = False
-            out += "\n" + str(e)
+        for n in ([gname] if gname else list(groups())):
+            try:
+                build_ocaml(n)
+            except RuntimeError as e:
+                if gname:
+                    ok = False
+                out += "\n" + str(e)
         return ok, out
 
 
